@@ -464,8 +464,58 @@ def role_of(facts, fn):
     return None
 
 
+_ref_cache = {}
+
+
+def referrers(facts):
+    """path of a local fn -> set of paths of the local fns (closures folded into their parent) that call it or pass it
+    as a fn item"""
+    key = id(facts)
+    if key in _ref_cache:
+        return _ref_cache[key]
+    from .c08 import _walk_thir
+    idx = {}
+    for g in facts.fns:
+        owner = g
+        while owner['kind'] in ('Closure', 'InlineConst') and owner.get('parent') in facts.by_path:
+            owner = facts.by_path[owner['parent']]
+        for node, _p in _walk_thir(g.get('thir'), [], g):
+            tgt = None
+            if node.get('k') == 'call' and node.get('local') and not node.get('trait'):
+                tgt = node.get('f')
+            elif node.get('k') == 'zst' and node.get('fn'):
+                tgt = node['fn']
+                if tgt.startswith('parity_scale_codec::'):
+                    tgt = tgt[len('parity_scale_codec::'):]
+            if tgt and tgt in facts.by_path and tgt != owner['path']:
+                idx.setdefault(tgt, set()).add(owner['path'])
+    _ref_cache[key] = idx
+    return idx
+
+
+def _role_owner(facts, fn, depth=0):
+    """role of the helper a private free function was factored out of: every reference to it comes from functions
+    that belong to one and the same role"""
+    ro = role_of(facts, fn)
+    if ro or depth > 3:
+        return ro
+    if fn['kind'] != 'Fn' or fn.get('trait') or fn.get('impl') or fn.get('vis') == 'Public':
+        return None
+    refs = referrers(facts).get(fn['path'], set())
+    if not refs:
+        return None
+    got = set()
+    for r in refs:
+        g = facts.by_path.get(r)
+        got.add(_role_owner(facts, g, depth + 1) if g else None)
+    if len(got) == 1 and None not in got:
+        return got.pop()
+    return None
+
+
 def stable_fkey(facts, fn):
-    """like fkey, but crate-private helpers are named by their role so that a rename does not change keys"""
+    """like fkey, but crate-private helpers are named by their role so that a rename does not change keys; a private
+    function factored out of such a helper (referenced from nowhere else) carries the helper's name"""
     owner = fn
     if fn['kind'] in ('Closure', 'InlineConst') and fn.get('parent') in facts.by_path:
         owner = facts.by_path[fn['parent']]
@@ -473,4 +523,8 @@ def stable_fkey(facts, fn):
     if ro:
         k = fkey(fn)
         return k.replace(owner['path'], 'helper:' + ro)
+    if owner is fn and fn['kind'] == 'Fn' and not fn.get('trait') and not fn.get('impl'):
+        ro = _role_owner(facts, fn)
+        if ro:
+            return 'helper:' + ro
     return fkey(fn)
